@@ -139,7 +139,8 @@ func (_this *Context) AddRecordTypeKey(key recordTypeKey) {
 }
 
 func (_this *Context) EndRecordType() {
-	_this.recordTypes[_this.recordTypeName] = _this.recordType
+	// recordType is a scratch buffer that the next record type reuses
+	_this.recordTypes[_this.recordTypeName] = append([]recordTypeKey(nil), _this.recordType...)
 	_this.UnstackBuilder()
 }
 
